@@ -2,6 +2,7 @@ package vrt
 
 import (
 	"net"
+	"unsafe"
 	"os"
 
 	"golang.org/x/sys/unix"
@@ -76,6 +77,10 @@ func Munmap(b []byte) error {
 		x.unmapped = map[*byte]bool{}
 	}
 	x.unmapped[&b[0]] = true
+	if x.unmappedLen == nil {
+		x.unmappedLen = map[uintptr]int{}
+	}
+	x.unmappedLen[uintptr(unsafe.Pointer(&b[0]))] = len(b)
 	x.cleanup = append(x.cleanup, func() { unix.Munmap(b) })
 	return nil
 }
